@@ -482,6 +482,11 @@ fn method_real<S: MSk>(m: usize, rng: &mut impl Rng, calls: &mut Vec<Value>, ski
         let (ra, rb) = ranks(&a, &b);
         calls.push(json!({"grp": "method", "a": ra, "b": rb, "res": acc.json(), "items": na}));
     }
+    // the arguments exchanged: the second sketcher's own sketch against the first sketch
+    let mut acc = Acc::default();
+    acc.add(S::NAME.to_string(), est_outcome(&o, &a, full.len()));
+    let (ra, rb) = ranks(&full, &a);
+    calls.push(json!({"grp": "method", "a": ra, "b": rb, "res": acc.json(), "items": idb.len()}));
 }
 
 /// long sketch with a constructed set of differing positions
